@@ -14,8 +14,10 @@ Notation merge_patches := (merge_patches hash hash_eqb dat).
 (* the divergent events are interleaved in timestamp order, nothing added, nothing dropped,
    equal timestamps keep their order (local first) *)
 Theorem C05_merged_perm_sorted_stable local remote m : merge_patches local remote = PushRemote m ->
-  Permutation m (local ++ remote) /\ StronglySorted (time_le hash dat) m /\
-  (forall t, at_time hash dat t m = at_time hash dat t local ++ at_time hash dat t remote).
+  Permutation m (not_in_remote hash hash_eqb dat remote local ++ remote) /\
+  StronglySorted (time_le hash dat) m /\
+  (forall t, at_time hash dat t m =
+             at_time hash dat t (not_in_remote hash hash_eqb dat remote local) ++ at_time hash dat t remote).
 Proof. exact (push_remote_spec hash hash_eqb dat local remote m). Qed.
 
 (* local events are only discarded (rewind) when each of them is already on the remote *)
@@ -27,18 +29,19 @@ Theorem C05_push_only_with_new_local_event local remote m : merge_patches local 
   exists r, In r local /\ ~ In (er_commit r) (map er_commit remote).
 Proof. exact (push_remote_when hash hash_eqb hash_eqb_spec dat local remote m). Qed.
 
-(* exactly once — outside the known class (a commit hash occurring twice among the suffixes) *)
-Theorem C05_exactly_once_partial local remote m : merge_patches local remote = PushRemote m ->
-  NoDup (map er_commit (local ++ remote)) ->
-  NoDup (map er_commit m) /\ (forall c, In c (map er_commit m) <-> In c (map er_commit (local ++ remote))).
-Proof. exact (exactly_once_partial hash hash_eqb dat local remote m). Qed.
+(* every event committed on either side since the ancestor is present exactly once
+   (byte-identical events made on both sides count as one) and nothing else is added *)
+Theorem C05_exactly_once local remote m : merge_patches local remote = PushRemote m ->
+  NoDup (map er_commit local) -> NoDup (map er_commit remote) ->
+  NoDup (map er_commit m) /\
+  (forall c, In c (map er_commit m) <-> In c (map er_commit local) \/ In c (map er_commit remote)).
+Proof. exact (exactly_once hash hash_eqb hash_eqb_spec dat local remote m). Qed.
 End C05.
 
-(* the full statement ('byte-identical events made independently count as one') is refuted:
-   the same delete made on both sides at different times is kept twice *)
-Theorem C05_exactly_once_refuted :
+(* the same delete made on both sides at different times is kept once (the remote copy) *)
+Theorem C05_nonvacuous_identical_events_once :
   merge_patches nat Nat.eqb nat [mkErec 1%N 7 0; mkErec 3%N 9 0] [mkErec 2%N 7 0]
-  = PushRemote [mkErec 1%N 7 0; mkErec 2%N 7 0; mkErec 3%N 9 0].
+  = PushRemote [mkErec 2%N 7 0; mkErec 3%N 9 0].
 Proof. reflexivity. Qed.
 
 Theorem C05_nonvacuous_rewind :
@@ -49,6 +52,6 @@ Proof. reflexivity. Qed.
 Print Assumptions C05_merged_perm_sorted_stable.
 Print Assumptions C05_rewind_local_loses_nothing.
 Print Assumptions C05_push_only_with_new_local_event.
-Print Assumptions C05_exactly_once_partial.
-Print Assumptions C05_exactly_once_refuted.
+Print Assumptions C05_exactly_once.
+Print Assumptions C05_nonvacuous_identical_events_once.
 Print Assumptions C05_nonvacuous_rewind.
